@@ -98,14 +98,19 @@ Path(E, a, b) == b \in ReachSet(E, {a})
 -----------------------------------------------------------------------------
 (* duplicate producers: exclusive gate branches, or ordered *)
 TargetIdx(p, g) == {i \in Idx(p) : Node(p, i).name \in StrTargets(Node(p, g))}
-(* the branch of target t: everything reachable from t and from no other target *)
-Branch(p, E, g, t) ==
-  ReachSet(E, {t}) \ UNION {ReachSet(E, {t2}) : t2 \in TargetIdx(p, g) \ {t}}
-Mutex(p, E, a, b) ==
+(* the branch of target t of gate g: t itself (an exclusive gate activates  *)
+(* exactly one of its targets per decision: "exactly one target runs, so    *)
+(* same output names are allowed") and everything that is reachable from t  *)
+(* and from no other target of g.                                           *)
+(* impl: t belongs to its own branch only if no other target reaches it.    *)
+Branch(p, E, g, t, impl) ==
+  (IF impl THEN {} ELSE {t})
+    \cup (ReachSet(E, {t}) \ UNION {ReachSet(E, {t2}) : t2 \in TargetIdx(p, g) \ {t}})
+Mutex(p, E, a, b, impl) ==
   \E g \in Idx(p) :
     /\ Exclusive(Node(p, g))
     /\ \E t1 \in TargetIdx(p, g) : \E t2 \in TargetIdx(p, g) \ {t1} :
-         a \in Branch(p, E, g, t1) /\ b \in Branch(p, E, g, t2)
+         a \in Branch(p, E, g, t1, impl) /\ b \in Branch(p, E, g, t2, impl)
 
 (* names contested among the producers of o *)
 Contested(p, o) ==
@@ -121,7 +126,7 @@ Ordered(p, o, a, b, impl) ==
 
 DuplicateProducersOK(p, impl) ==
   \A o \in AllOuts(p) : \A a \in Prod(p, o) : \A b \in Prod(p, o) :
-    a < b => (Mutex(p, Topology(p, impl), a, b) \/ Ordered(p, o, a, b, impl))
+    a < b => (Mutex(p, Topology(p, impl), a, b, impl) \/ Ordered(p, o, a, b, impl))
 
 -----------------------------------------------------------------------------
 (* defaults of a shared parameter: all-or-none and equal values.  A nested  *)
